@@ -462,6 +462,10 @@ for _g in PLANS['C13']['groups']:
 BINSEM = dict(params=dict(binsem=1))
 PLANS['C01']['groups'].append(G('mu_mix', 'c-binsem-plain', 'A', 2, 600, thorough=30000, owners=mu_mix_owners, **BINSEM))
 PLANS['C02']['groups'].append(G('mu_mix', 'c-binsem-plain', 'A', 2, 600, thorough=30000, owners=mu_mix_owners, **BINSEM))
+# second allocator / red-zone policy as an independent oracle (thorough tier only): valgrind memcheck on the plain builds
+for _sc, _n in (('refcount', 4000), ('waitn', 1500), ('notes', 2000)):
+    PLANS['C13']['groups'].append(G(_sc, 'c-plain', 'B', 2, _n, tier='thorough', thorough=_n, owners=c13_owners, valgrind=True, timeout=3000))
+PLANS['C09']['groups'].append(G('notes', 'c-plain', 'B', 3, 1500, tier='thorough', thorough=1500, valgrind=True, timeout=3000, **NOTES))
 # thread churn: sections run by short-lived pthreads (waiter structs returned to the pool by the thread-exit destructor)
 PLANS['C02']['groups'].append(G('mu_mix', 'c-plain', 'B', 4, 1500, owners=mu_mix_owners, params=dict(churn=1)))
 PLANS['C02']['groups'].append(G('mu_mix', 'c-plain', 'A', 2, 600, thorough=20000, owners=mu_mix_owners, params=dict(churn=1)))
